@@ -120,6 +120,27 @@ def run(model, rep, tier):
     rep.check("min_ttl = min(min_ttl, answer.ttl)" in t and "min_ttl = min(min_ttl, crrset.ttl)" in t and "min_ttl = min(min_ttl, srrset.ttl, srdata.minimum)" in t, "R-16.3", rc.qualname, where(rc, rc.node),
               "minimum TTL over the answer, every CNAME followed, and (negative) the SOA ttl/minimum", "minimum-TTL accumulation changed", stmt="min-ttl")
 
+    # the chain cursor: the name moved along the CNAME chain is the one looked up, the one the negative-TTL SOA walk starts from, and the canonical name returned
+    curs = sorted({n.targets[0].id for n in ast.walk(rc.node) if isinstance(n, ast.Assign) and len(n.targets) == 1 and isinstance(n.targets[0], ast.Name) and isinstance(n.value, ast.Attribute) and n.value.attr == "target"})
+    if len(curs) != 1:
+        rep.blind("R-16.3", rc.qualname, where(rc, rc.node), f"chain cursor (`<name> = rd.target`) not identified: {curs}", stmt="chain-cursor")
+    else:
+        V = curs[0]
+        finds = [c for c in ast.walk(rc.node) if isinstance(c, ast.Call) and src(c.func) == "self.find_rrset" and len(c.args) >= 2]
+        ans = [c for c in finds if src(c.args[0]) == "self.answer"]
+        aut = [c for c in finds if src(c.args[0]) == "self.authority"]
+        rep.floor("R-16.3-finds", len(ans) + len(aut), 3)
+        for c in ans:
+            rep.check(src(c.args[1]) == V, "R-16.3", rc.qualname, where(rc, c), f"answer lookup uses the chain cursor `{V}`", f"answer lookup uses `{src(c.args[1])}` instead of the chain cursor `{V}`: the CNAME chain is not followed", stmt="cursor-answer " + src(c.args[3]) if len(c.args) > 3 else "cursor-answer")
+        for c in aut:
+            X = src(c.args[1])
+            defs = sorted({" ".join(src(n.value).split()) for n in ast.walk(rc.node) if isinstance(n, ast.Assign) and any(src(t_) == X for t_ in n.targets)}) if X != V else [V]
+            rep.check(X == V or defs == sorted({V, f"{X}.parent()"}), "R-16.3", rc.qualname, where(rc, c), f"the SOA walk for the negative TTL starts at the end of the chain (`{X}` = {defs})",
+                      f"the SOA walk variable `{X}` is defined by {defs}, not by the chain cursor `{V}` and its parents: for a CNAME into another zone the bounding SOA is never found and the negative answer is cached for the CNAME's TTL", stmt="cursor-soa")
+        rets = [r for r in ast.walk(rc.node) if isinstance(r, ast.Return) and isinstance(r.value, ast.Call) and src(r.value.func) == "ChainingResult"]
+        rep.check(len(rets) == 1 and rets[0].value.args and src(rets[0].value.args[0]) == V, "R-16.3", rc.qualname, where(rc, rc.node), f"the canonical name returned is the chain cursor `{V}`",
+                  "the canonical name returned is not the end of the chain", stmt="cursor-returned")
+
     # ---------------------------------------------------------------- R-16.4
     nr = model.func("dns.resolver._Resolution.next_request")
     qr = model.func("dns.resolver._Resolution.query_result")
@@ -171,6 +192,10 @@ def run(model, rep, tier):
 
 
 WITNESSES = [
+    {"id": "c16-soa-walk-from-question-name", "rule": "R-16.3", "file": "dns/message.py", "expect": "fires",
+     "old": "            auname = qname\n", "new": "            auname = question.name\n"},
+    {"id": "c16-cname-lookup-at-question-name", "rule": "R-16.3", "file": "dns/message.py", "expect": "fires",
+     "old": "                            self.answer, qname, question.rdclass, dns.rdatatype.CNAME", "new": "                            self.answer, question.name, question.rdclass, dns.rdatatype.CNAME"},
     {"id": "c16-async-ignores-lifetime", "rule": "R-16.1", "file": "dns/asyncresolver.py", "expect": "fires",
      "old": "                timeout = self._compute_timeout(start, lifetime, resolution.errors)", "new": "                timeout = self.timeout"},
     {"id": "c16-sync-timeout-outside-loop", "rule": "R-16.2", "file": "dns/resolver.py", "expect": "fires",
